@@ -30,6 +30,11 @@ Ciphers == [ a \in {"AES-256-CFB", "AES-192-CFB", "AES-128-CFB", "AES-256-OFB", 
              ELSE IF a \in {"AES-192-CFB", "AES-192-OFB", "AES-192-CTR", "AES-192-CTR-LE", "AES-192-CTR-BE", "AES-192-CBC-PKCS7", "AES-192-CBC-ANSIX923",
                             "AES-192-CBC-ISO7816", "AES-192-CBC-ISO10126"} THEN <<24, 16>>
              ELSE <<16, 16>> ]
+\* IV / nonce and key shapes beyond random ones: counters about to wrap (CTR modes add the block number to the IV), all-zero, all-one
+IvShapes == <<"random", "zeros", "ones", "low8-ones", "low4-ones", "last-byte-fe", "low8-ones-but-last-fe", "high8-ones", "low-half-ones-high-half-random">>
+KeyShapes == <<"random", "zeros", "ones">>
+ASSUME PrintT(<<"IV_SHAPES", ToJson(IvShapes)>>)
+ASSUME PrintT(<<"KEY_SHAPES", ToJson(KeyShapes)>>)
 IpModes == [m \in {"aes128", "pfx"} |-> IF m = "aes128" THEN 16 ELSE 32]
 \* C21: code points for JSON strings and keys (quote, backslash, slash, controls incl. NUL, DEL, U+2028, BMP, astral)
 JsonAlphabet == <<97, 34, 92, 47, 0, 8, 10, 13, 31, 127, 8232, 233, 65533, 128512, 32, 123, 91, 44, 58>>
